@@ -932,7 +932,7 @@ impl NodeDeletionEntry {
             }
         }
         let query = format!(
-            "SELECT id, verifying_key  FROM _node WHERE id in ({})",
+            "SELECT id, verifying_key, _entity  FROM _node WHERE id in ({})",
             in_clause
         );
         let mut stmt = conn.prepare(&query)?;
@@ -940,7 +940,13 @@ impl NodeDeletionEntry {
         while let Some(row) = rows.next()? {
             let id: Uid = row.get(0)?;
             let verifying_key: Option<Vec<u8>> = row.get(1)?;
+            let entity: String = row.get(2)?;
             if let Some(entry) = map.get_mut(&id) {
+                if !entry.0.entity.eq(&entity) {
+                    //the record names another entity than the row it would delete: the right would be checked on the wrong entity
+                    map.remove(&id);
+                    continue;
+                }
                 entry.1 = verifying_key;
             }
         }
